@@ -91,25 +91,29 @@ FILES = ['regions/core/compound.py', 'regions/core/core.py', 'regions/shapes/ann
 RULE = ('pairs: full Cartesian product of ordered operand pair (8 x 8 catalogue regions: overlapping, nested, identical, '
         'disjoint, nearly touching) x operator {and, or, xor} x include of operand 1 {absent, False} x include of '
         'operand 2 {absent, False} x construction {operator, method, constructor, constructor+include=False, '
-        'constructor+include=True}; one state = one such configuration; per state contains (flat, 2-d, scalars, in), '
+        'constructor+include=True, constructor + explicit empty meta}; one state = one such configuration; per state contains (flat, 2-d, scalars, in), '
         'bounding_box, to_mask(center), rotate (2 pivots x 3 angles, structure + membership), to_sky / sky contains / '
         'sky operators / to_pixel for every WCS of the tier.  trees: every expression of depth <= 2 over 3 leaves and 3 '
         'operators (2700), thorough: every depth-3 spine tree op(T, leaf) / op(leaf, T) with T of depth exactly 2 '
         '(48114), x leaf include patterns; one state = one (tree, pattern).  annuli: full product class x size pairs x '
-        'angle x centre; one state = one spec, checked with all 5 include values.  A pair state is non-trivial when sure '
+        'angle x centre; one state = one spec, checked with all 5 include values.  annulus masks: small annuli of the 3 classes on centres '
+        'whose fractional parts place the inner box symmetrically and asymmetrically inside the outer one; the centre mask is compared '
+        'pixel by pixel with xor(inner mask, outer mask) on the union box and with the reference membership of the pixel centres.  A pair state is non-trivial when sure '
         'queries exist in all four Venn cells (A only, B only, both, neither); a tree state when its reference answer has '
         'sure members and sure non-members; an annulus state when sure queries exist in the hole, in the ring and outside')
 BOUNDS = {
-    'quick': '64 ordered pairs x 3 operators x 4 operand-flag patterns x 5 constructions (3840 configurations), 6 rotations '
+    'quick': '64 ordered pairs x 3 operators x 4 operand-flag patterns x 6 constructions (4608 configurations), 6 rotations '
              'each (membership after rotation for 2 of them), one of 2 WCS (chosen by VERIF_SEED) per configuration, reverse '
              'conversion for 2 of the 5 constructions; 2700 trees of depth <= 2 x 3 leaf-flag patterns; annuli: sizes '
              '{1, 2^-10, 2.5, 1.75*2^20} (all inner<outer radius pairs; all inner width x height pairs x 3 outer factors), 6 '
-             'angles (deg Quantity / rad Angle), 2 centres, 5 include values',
-    'thorough': '3840 pair configurations, 6 rotations each, all 6 WCS (TAN/SIN x rotation {0, 30, 137} deg, 1e-3 deg/pixel); '
+             'angles (deg Quantity / rad Angle), 2 centres, 5 include values; annulus masks: 10 centres (fractions {0, .5, .8}^2 + one '
+             'negative) x (10 radius pairs | 3 inner sizes x 3 factors x 4 angles, 2 classes)',
+    'thorough': '4608 pair configurations, 6 rotations each, all 6 WCS (TAN/SIN x rotation {0, 30, 137} deg, 1e-3 deg/pixel); '
                 '2700 trees of depth <= 2 x all 8 leaf-flag patterns (first pattern: + rotation and conversion), 48114 depth-3 '
                 'spine trees x 4 flag patterns; annuli: 18 radii (all 153 pairs), 9 x 9 inner width x height pairs x 3 outer '
                 'factors x 20 angle representations (11 angles in deg; 123.4 deg in rad/arcmin/arcsec/hourangle as Quantity '
-                'and Angle; 30 deg as Angle) x 4 centres, 5 include values',
+                'and Angle; 30 deg as Angle) x 4 centres, 5 include values; annulus masks: 26 centres (fractions {0, .2, .5, .8, .125}^2 + one '
+                'negative) x (10 radius pairs | 3 inner sizes x 3 factors x 10 angles, 2 classes)',
 }
 ASSUMPTIONS = [
     'numpy elementwise arithmetic and math.cos/sin are trusted (the oracle is vectorised)',
@@ -165,7 +169,8 @@ NEAR = {frozenset(('circle', 'circleannulus')): 0.01, frozenset(('circle', 'poly
         frozenset(('circle', 'rectangleannulus')): 0.02, frozenset(('polygon', 'rectangleannulus')): 0.01}
 WIDE_D = 0.02            # pixel; 1% of the smallest full size in the catalogue (2.0)
 
-VARIANTS = [['operator', 'inherit'], ['method', 'inherit'], ['ctor', 'inherit'], ['ctor', False], ['ctor', True]]
+# 'empty': the constructor is given an explicit EMPTY meta and visual -- the compound is then included, whatever operand 1 says
+VARIANTS = [['operator', 'inherit'], ['method', 'inherit'], ['ctor', 'inherit'], ['ctor', False], ['ctor', True], ['ctor', 'empty']]
 OPERAND_INCS = ['absent', False]
 WCSS = [[proj, rot] for proj in ('TAN', 'SIN') for rot in (0.0, 30.0, 137.0)]
 ROTS = [[pv, _deg(a)] for pv in ([50.0, 50.0], [0.0, 0.0]) for a in (30.0, 90.0, -123.4)]
@@ -245,6 +250,8 @@ def _combine(e, ra, rb, sky=False):
     cls = R.CompoundSkyRegion if sky else R.CompoundPixelRegion
     if inc == 'inherit':
         return cls(ra, rb, OPS[op])
+    if inc == 'empty':
+        return cls(ra, rb, OPS[op], meta=R.RegionMeta(), visual=R.RegionVisual())
     meta, vis = _cmeta(inc)
     return cls(ra, rb, OPS[op], meta=meta, visual=vis)
 
@@ -361,6 +368,8 @@ def obs_flag(e):
         return True if e['inc'] == 'absent' else bool(e['inc'])
     if e['inc'] == 'inherit':
         return obs_flag(e['a'])
+    if e['inc'] == 'empty':
+        return True
     return bool(e['inc'])
 
 
@@ -1031,6 +1040,130 @@ def check_annulus(res, spec, includes=K.INCLUDES):
         res.sample({'annulus_spec': spec, 'n_queries': int(qx.size), 'n_sure': int(sure.sum())})
 
 
+# ---- ANNULUS MASKS ----------------------------------------------------------------------------------------------
+# small annuli (the masks are compared pixel by pixel) on centres whose fractional parts put the inner box
+# asymmetrically inside the outer one (left pad != right pad), on pixel centres, on pixel edges and in between
+MASK_FRACS = {'quick': [0.0, 0.5, 0.8], 'thorough': [0.0, 0.2, 0.5, 0.8, 0.125]}
+MASK_RADII = [0.4, 1.0, 2.0, 2.5, 3.4]
+MASK_INNER = [(1.0, 2.5), (2.0, 2.0), (3.4, 0.75)]
+MASK_FACTORS = [(1.25, 1.25), (4.0, 1.5), (1.5, 2.2)]
+
+
+def annulus_mask_specs(tier):
+    fr = MASK_FRACS[tier]
+    centres = [(3.0 + fx, 4.0 + fy) for fx in fr for fy in fr] + [(-7.0 + fr[-1], -2.0 + fr[1])]
+    if tier == 'quick':
+        angles = [_deg(0.0), _deg(30.0), K.angle_spec(123.4, 'rad', 'angle'), _deg(-90.0)]
+    else:
+        angles = [_deg(d) for d in (0.0, 30.0, 45.0, 90.0, -60.0, 123.4, 180.0, 270.0)] + [K.angle_spec(123.4, 'rad', 'angle'),
+                                                                                           K.angle_spec(-60.0, 'arcmin', 'quantity')]
+    out = []
+    for c in centres:
+        for ri in MASK_RADII:
+            for ro in MASK_RADII:
+                if ri < ro:
+                    out.append({'cls': 'circleannulus', 'center': list(c), 'inner_radius': ri, 'outer_radius': ro})
+    for cls in ('ellipseannulus', 'rectangleannulus'):
+        for c in centres:
+            for (w, h) in MASK_INNER:
+                for (fw, fh) in MASK_FACTORS:
+                    for a in angles:
+                        out.append({'cls': cls, 'center': list(c), 'inner_width': w, 'inner_height': h,
+                                    'outer_width': w * fw, 'outer_height': h * fh, 'angle': a})
+    return out
+
+
+def check_annulus_mask(res, spec, includes=('absent', False)):
+    """Centre-mode mask of an annulus: on the annulus' own box (= the union of the boxes of the two shapes), equal to
+    xor(mask of the inner shape, mask of the outer shape) placed on that box, and equal to the reference membership
+    (inside outer, not inside inner) of every pixel centre that is not within the guard band of a boundary."""
+    inner, outer = annulus_parts(spec)
+    res.states += 1
+    res.axis('part', 'annulus_mask')
+    res.axis('annulus_cls', spec['cls'])
+    res.axis('centre_fraction', f"{spec['center'][0] % 1.0:g}/{spec['center'][1] % 1.0:g}")
+    allok = True
+    pads = None
+    for inc in includes:
+        s = dict(spec)
+        if inc != 'absent':
+            s['include'] = inc
+        case = {'part': 'annulus_mask', 'spec': s}
+        cx = Ctx(res, case)
+        res.evaluations += 1
+        try:
+            reg = G.build_routed(s)
+            rin, rout = G.build(inner), G.build(outer)
+        except Exception as exc:          # noqa: BLE001
+            cx.bad('build_failed', f'could not construct the annulus: {type(exc).__name__}: {exc}')
+            continue
+        ok, got = _call(cx, "to_mask('center')", lambda: (reg.to_mask('center'), reg.bounding_box), check='annulus_mask')
+        res.transitions += 1
+        if not ok:
+            allok = False
+            continue
+        m, bb = got
+        ok, parts = _call(cx, "to_mask('center') of the two shapes", lambda: (rin.to_mask('center'), rout.to_mask('center')),
+                          check='annulus_mask')
+        if not ok:
+            allok = False
+            continue
+        mi, mo = parts
+        data = np.asarray(getattr(m, 'data', None))
+        if data.dtype == object or getattr(m, 'bbox', None) is None:
+            cx.bad('mask_shape', f'to_mask returned {type(m).__name__}', 'RegionMask', type(m).__name__, check='annulus_mask')
+            continue
+        box, bi, bo = _box(m.bbox), _box(mi.bbox), _box(mo.bbox)
+        ub = _union(bi, bo)
+        pads = (bi[0] - ub[0], ub[1] - bi[1], bi[2] - ub[2], ub[3] - bi[3])
+        if box != ub or _box(bb) != ub:
+            cx.bad('mask_bbox', f'annulus mask box {box} / bounding_box {_box(bb)} != union {ub} of the boxes of its two shapes',
+                   list(ub), list(box), check='annulus_mask')
+            continue
+        shape = (ub[3] - ub[2], ub[1] - ub[0])
+        if tuple(data.shape) != shape:
+            cx.bad('mask_shape', f'mask data shape {tuple(data.shape)} != box shape {shape}', list(shape), list(data.shape),
+                   check='annulus_mask')
+            continue
+        nonbin = ~((data == 0) | (data == 1))
+        if nonbin.any():
+            j, i = np.argwhere(nonbin)[0]
+            cx.bad('mask_not_binary', f'centre mask holds {data[j, i]!r} at data[{j},{i}]', [0, 1], repr(data[j, i]),
+                   check='annulus_mask')
+            continue
+        want = np.logical_xor(_embed(bi, np.asarray(mi.data) != 0, ub, False), _embed(bo, np.asarray(mo.data) != 0, ub, False))
+        bad = (data != 0) != want
+        res.transitions += 1
+        if bad.any():
+            j, i = np.argwhere(bad)[0]
+            cx.bad('annulus_mask_wrong', f'{int(bad.sum())} pixels of the annulus centre mask differ from xor(inner mask, outer mask) '
+                                         f'on the box {ub} (inner box {bi}, outer box {bo}); first at pixel (ix={ub[0] + int(i)}, '
+                                         f'iy={ub[2] + int(j)}): mask {data[j, i]!r}, xor {int(want[j, i])}',
+                   int(want[j, i]), repr(data[j, i]), check='annulus_mask')
+            continue
+        xs = np.arange(ub[0], ub[1], dtype=float)
+        ys = np.arange(ub[2], ub[3], dtype=float)
+        ii, si = G.Ref(inner).member(xs[None, :], ys[:, None])
+        io, so = G.Ref(outer).member(xs[None, :], ys[:, None])
+        ring = np.array(io, bool) & ~np.array(ii, bool)
+        sure = np.array(si, bool) & np.array(so, bool)
+        bad = ((data != 0) != ring) & sure
+        res.transitions += 1
+        res.extra['annulus_pixels_compared'] = res.extra.get('annulus_pixels_compared', 0) + int(sure.sum())
+        if bad.any():
+            j, i = np.argwhere(bad)[0]
+            cx.bad('annulus_mask_wrong', f'{int(bad.sum())} of {int(sure.sum())} pixels of the annulus centre mask differ from the '
+                                         f'reference membership of the pixel centres; first at pixel (ix={ub[0] + int(i)}, '
+                                         f'iy={ub[2] + int(j)}): mask {data[j, i]!r}, reference {int(ring[j, i])}',
+                   int(ring[j, i]), repr(data[j, i]), check='annulus_mask')
+        allok = allok and cx.ok
+        if inc == 'absent' and ring.any() and (np.array(ii, bool) & sure).any():
+            res.nontriv(('annulus_mask', spec))
+    if pads is not None:
+        res.axis('inner_box_pads', 'symmetric' if (pads[0] == pads[1] and pads[2] == pads[3]) else 'asymmetric')
+    res.outcome(('annulus_mask', spec['cls'], pads, 'ok' if allok else 'BAD'))
+
+
 # ---- framework ------------------------------------------------------------------------------------------------
 def shards(tier, seed):
     out = []
@@ -1054,8 +1187,11 @@ def shards(tier, seed):
     n = 16 if tier == 'quick' else 96
     for k in range(n):
         out.append({'part': 'annulus', 'k': k, 'n': n})
+    nm = 8 if tier == 'quick' else 32
+    for k in range(nm):
+        out.append({'part': 'annulus_mask', 'k': k, 'n': nm})
     # heavy shards first
-    order = {'pair': 0, 'tree3': 1, 'tree2': 2, 'annulus': 3}
+    order = {'pair': 0, 'tree3': 1, 'tree2': 2, 'annulus': 3, 'annulus_mask': 4}
     out.sort(key=lambda s: order[s['part']])
     return out
 
@@ -1086,6 +1222,9 @@ def run_shard(shard, tier, seed):
         for t in _TREES[part][shard['lo']:shard['hi']]:
             check_tree(res, t, flags, extras=extras, masks=(shard['pattern'] == 0))
         res.axis('tree_venn_cells_populated', tree_cells_present())
+    elif part == 'annulus_mask':
+        for spec in annulus_mask_specs(tier)[shard['k']::shard['n']]:
+            check_annulus_mask(res, spec)
     else:
         for spec in annulus_specs(tier)[shard['k']::shard['n']]:
             check_annulus(res, spec)
@@ -1101,6 +1240,10 @@ def replay(case):
         check_pair_config(res, case['expr'], wcss, rots, only=only)
     elif case['part'] == 'tree':
         check_tree(res, case['tree'], case['flags'], extras=case.get('extras', False), only=only)
+    elif case['part'] == 'annulus_mask':
+        s = dict(case['spec'])
+        inc = s.pop('include', 'absent')
+        check_annulus_mask(res, s, includes=[inc])
     else:
         s = dict(case['spec'])
         inc = s.pop('include', 'absent')
